@@ -36,6 +36,12 @@ def run_one(pid, tier, only=None):
         return rc
     except AnalysisError as e:
         print("ANALYSIS-ERROR property=%s %s" % (pid, e))
+        if any(not o.ok for o in ctx.obs):
+            # violations already established stand, whatever else could not be analysed
+            ctx.min_obligations = 0
+            ctx.note("analysis aborted early: %s" % e)
+            rc = finish(ctx, seed=int(os.environ.get("VERIF_SEED", "0") or 0))
+            return rc if rc == 1 else 2
         return 2
     except Exception:
         traceback.print_exc()
